@@ -5,7 +5,7 @@
                                     | B mode cache failfast n root*
    sources := n node* n (path content)*
    node    := t label cmd salt n ins* n (kind path)* n dep* n (k v)* nocache multi beh check | a label actual
-   label   := pkg name         pstate := A | N | W | F content      beh := n | f | a | s k
+   label   := pkg name         pstate := A | N | W | F content      beh := n | f | a | x | s k
    mode    := all | min        booleans 0/1, naturals decimal
 
    Output: one line, builds separated by ';':
@@ -32,7 +32,7 @@ let pstate () = match next () with
   | t -> failwith ("pstate " ^ t)
 
 let beh () = match next () with
-  | "n" -> BNormal | "f" -> BFail | "a" -> BFailAfter
+  | "n" -> BNormal | "f" -> BFail | "a" -> BFailAfter | "x" -> BBreakCheck
   | "s" -> BSkipOutput (nat_of_int (nat ()))
   | t -> failwith ("beh " ^ t)
 
@@ -71,6 +71,8 @@ let op () = match next () with
   | "T" -> OpTaint (listof label)
   | "P" -> let p = str () in let s = pstate () in OpPerturb (p, s)
   | "X" -> OpDestroyExt (label ())
+  | "D" -> OpDropBlob (str ())
+  | "R" -> OpDropResults
   | "B" -> let c = config () in let roots = listof (fun () -> nat_of_int (nat ())) in OpBuild (c, roots)
   | t -> failwith ("op " ^ t)
 
